@@ -7,9 +7,9 @@ from ..refmodel import RefModel
 PROP = "C02"
 BUDGET = {"quick": 900, "thorough": 25000}
 ALARM_S = 900
-RULE = ("catalogue models (SIR, SIR/N, SEIR, SIS, SIR with births and deaths, Lotka-Volterra, FitzHugh, linear chain, "
+RULE = ("catalogue models (SIR, SIR/N, SEIR, SIS, SIR with births and deaths, Lotka-Volterra, FitzHugh, van der Pol, linear chain, "
         "additive-parameter ODE, logistic) and bounded seeded random models x parameters x time grids (uniform / non-uniform, "
-        "array / list / tuple / scalar, float or integer dtype) x initial time (integer or fractional; numpy, float or int typed) x initial state as array / list / tuple / integer array x entry point {integrate, solve_determ, integrate2, integrateFuncJac} x method "
+        "array / list / tuple / scalar, float or integer dtype; 12% sparse grids on oscillators with gaps of 10-60 time units, i.e. hundreds to thousands of internal steps per interval) x initial time (integer or fractional; numpy, float or int typed) x initial state as array / list / tuple / integer array x entry point {integrate, solve_determ, integrate2, integrateFuncJac} x method "
         "{None, lsoda, vode, ivode, dopri5, dop853} x full_output x includeOrigin x I-seam buffer policy {native, fresh, "
         "reuse} x histories on one object (the owner re-assigns parameters - list / array / dict / permuted pairs / partial dict - and initial values / initial time between solves: H.interleave); non-trivial = some solve returned >= 3 rows whose reference values differ pairwise by > 100 x tolerance; "
         "distinct = distinct case digests")
@@ -20,7 +20,7 @@ COMPONENTS = {"real": ["pygom DeterministicOde.integrate/integrate2, SimulateOde
                        "(native / fresh copy every step / one persistent buffer overwritten in place)",
                        "K seam or backend='lambda' for the right-hand side"]}
 ASSUMPTIONS = ["reference = solve_ivp DOP853 at rtol 1e-11 (independent code path); tolerance 1e-5 (1 + max|x|)",
-               "bounded solutions (|x| < 1e4 on the grid) on horizons <= 40 time units",
+               "bounded solutions (|x| < 1e4 on the grid) on horizons <= 40 time units (<= 150 for the sparse long-gap grids, with the tolerance scaled by horizon/4)",
                "integrator failure is outside the property (bounded-rate models on which the integrators succeed)"]
 KEEP = ("C02.",)
 
@@ -29,9 +29,13 @@ def generate(seed, tier):
     S = core.Streams(seed)
     rng = S("gen")
     for _ in range(50):
-        name, model, theta, x0, t0, tmax, box, pos = solver.pick_problem(rng)
+        long_gap = rng.random() < 0.12
+        name, model, theta, x0, t0, tmax, box, pos = solver.pick_problem(rng, random_frac=0.0, only=["VDP", "FH", "LV"]) \
+            if long_gap else solver.pick_problem(rng)
         ref = RefModel(model, insertion_order(model))
         ops = solver.gen_solve_ops(rng, t0, tmax, rng.randint(1, 3))
+        if long_gap:
+            ops.insert(rng.randint(0, len(ops)), solver.gen_long_gap_op(rng, t0))
         if any(solver.safe_reference(ref, theta, x0, t0, op["grid"]) is None for op in ops):
             continue
         if rng.random() < 0.4:
